@@ -79,6 +79,10 @@ func (p *plain4) send(mac net.HardwareAddr, mt dhcpv4.MessageType, reqIP, ciaddr
 // address at the same time (intervals stamped by one atomic counter: from the return of the ACK
 // to the sending of the RELEASE), and at quiescence lease table, pool and clients agree.
 func TestV4Concurrent(t *testing.T) {
+	if !childMode() {
+		runInChild(t, "TestV4Concurrent")
+		return
+	}
 	runs := run.Pick(24, 300)
 	for r := 0; r < runs; r++ {
 		rng := run.SubRand("conc", r)
@@ -143,7 +147,7 @@ func TestV4Concurrent(t *testing.T) {
 					case c.held != nil && next(3) == 0: // renew
 						rep := pc.send(c.mac, dhcpv4.MessageTypeRequest, nil, c.held)
 						if rep == nil || rep.MessageType() != dhcpv4.MessageTypeAck || !rep.YourIPAddr.Equal(c.held) {
-							run.Violation("dhcp.Server.handleRequest", "renew-same-value", "renew-refused/concurrent", fmt.Sprintf("%s renewing %s got %v", c.name, c.held, rep), nil)
+							cviol("dhcp.Server.handleRequest", "renew-same-value", "renew-refused/concurrent", fmt.Sprintf("%s renewing %s got %v", c.name, c.held, rep), nil)
 						}
 					case c.held != nil: // release
 						to := stamp.Add(1)
@@ -190,9 +194,9 @@ func TestV4Concurrent(t *testing.T) {
 					break
 				}
 				if b.ip == a.ip && b.client != a.client {
-					run.Violation("dhcp.Server.handleRequest", "ack-unique", "concurrent-overlapping-bindings",
+					cviol("dhcp.Server.handleRequest", "ack-unique", "concurrent-overlapping-bindings",
 						fmt.Sprintf("%s and %s both held %s (acknowledged, not released) at the same time", a.client, b.client, a.ip),
-						map[string]any{"a": a, "b": b, "goroutines": G, "pool": cidr})
+						map[string]any{"a": fmt.Sprintf("%+v", a), "b": fmt.Sprintf("%+v", b), "goroutines": G, "pool": cidr})
 				}
 			}
 		}
@@ -210,36 +214,36 @@ func TestV4Concurrent(t *testing.T) {
 		snap := pool.VerifC02Snapshot()
 		for mac, ip := range final {
 			if leases[mac] != ip {
-				run.Violation("dhcp.Server.handleRequest", "lease-pool-consistency", "binding-without-lease/concurrent", fmt.Sprintf("client %s holds %s but the lease table says %q", mac, ip, leases[mac]), nil)
+				cviol("dhcp.Server.handleRequest", "lease-pool-consistency", "binding-without-lease/concurrent", fmt.Sprintf("client %s holds %s but the lease table says %q", mac, ip, leases[mac]), nil)
 			}
 			if a, ok := snap.Allocated[mac]; !ok || a.String() != ip {
-				run.Violation("dhcp.Server.handleRequest", "lease-pool-consistency", "lease-without-pool-allocation/concurrent", fmt.Sprintf("client %s holds %s but the pool says %v", mac, ip, a), nil)
+				cviol("dhcp.Server.handleRequest", "lease-pool-consistency", "lease-without-pool-allocation/concurrent", fmt.Sprintf("client %s holds %s but the pool says %v", mac, ip, a), nil)
 			}
 		}
 		seen := map[string]bool{}
 		for _, ip := range snap.Allocated {
 			if seen[ip.String()] {
-				run.Violation("dhcp.Pool", "lease-pool-consistency", "pool-allocated-twice/concurrent", ip.String()+" allocated twice", nil)
+				cviol("dhcp.Pool", "lease-pool-consistency", "pool-allocated-twice/concurrent", ip.String()+" allocated twice", nil)
 			}
 			seen[ip.String()] = true
 		}
 		for _, ip := range snap.Available {
 			if seen[ip.String()] {
-				run.Violation("dhcp.Pool", "lease-pool-consistency", "pool-available-and-allocated/concurrent", ip.String()+" available and allocated / twice", nil)
+				cviol("dhcp.Pool", "lease-pool-consistency", "pool-available-and-allocated/concurrent", ip.String()+" available and allocated / twice", nil)
 			}
 			seen[ip.String()] = true
 		}
 		if len(seen) != usable {
-			run.Violation("dhcp.Pool", "lease-pool-consistency", "pool-lost-addresses/concurrent", fmt.Sprintf("pool has %d of %d usable addresses after the run", len(seen), usable), nil)
+			cviol("dhcp.Pool", "lease-pool-consistency", "pool-lost-addresses/concurrent", fmt.Sprintf("pool has %d of %d usable addresses after the run", len(seen), usable), nil)
 		}
-		run.Eval()
-		run.Count("concurrent_runs", 1)
-		run.Count("concurrent_handler_calls", int(ops.Load()))
-		run.Count("concurrent_cleanup_sweeps", int(sweeps.Load()))
-		run.Count("concurrent_bindings_observed", len(holds))
-		run.Count("concurrent_addresses_that_changed_owner", changed)
+		ceval()
+		ccount("concurrent_runs", 1)
+		ccount("concurrent_handler_calls", int(ops.Load()))
+		ccount("concurrent_cleanup_sweeps", int(sweeps.Load()))
+		ccount("concurrent_bindings_observed", len(holds))
+		ccount("concurrent_addresses_that_changed_owner", changed)
 		if changed > 0 {
-			run.Nontrivial(fmt.Sprintf("conc-%d", r))
+			cnontriv(fmt.Sprintf("conc-%d", r))
 		}
 	}
 }
@@ -248,6 +252,10 @@ func TestV4Concurrent(t *testing.T) {
 // those clients renew (late). Whatever the schedule, a client that was acknowledged must afterwards be
 // in the lease table with that address allocated to it in the pool.
 func TestV4CleanupVsRenewal(t *testing.T) {
+	if !childMode() {
+		runInChild(t, "TestV4CleanupVsRenewal")
+		return
+	}
 	trials := run.Pick(12, 200)
 	const nClients = 800
 	var lost, renewedAfter, renewedBefore atomic.Int64
@@ -312,7 +320,7 @@ func TestV4CleanupVsRenewal(t *testing.T) {
 			switch {
 			case leases[mac] != ip:
 				lost.Add(1)
-				run.Violation("dhcp.Server.cleanupExpiredLeases", "lease-pool-consistency", "renewed-lease-removed-by-concurrent-sweep",
+				cviol("dhcp.Server.cleanupExpiredLeases", "lease-pool-consistency", "renewed-lease-removed-by-concurrent-sweep",
 					fmt.Sprintf("client %d renewed %s (ACK) while the expiry sweep ran; afterwards the lease table has %q for it", i, ip, leases[mac]),
 					map[string]any{"clients_with_lapsed_leases": nClients, "renewer": i, "ip": ip})
 			case !inPool || a.String() != ip:
@@ -322,13 +330,13 @@ func TestV4CleanupVsRenewal(t *testing.T) {
 				renewedBefore.Add(1)
 			}
 		}
-		run.Eval()
-		run.Count("cleanup_vs_renewal_trials", 1)
+		ceval()
+		ccount("cleanup_vs_renewal_trials", 1)
 	})
-	run.Count("cleanup_vs_renewal_lease_lost", int(lost.Load()))
-	run.Count("cleanup_vs_renewal_renewed_after_sweep", int(renewedAfter.Load()))
-	run.Count("cleanup_vs_renewal_renewed_before_or_kept", int(renewedBefore.Load()))
+	ccount("cleanup_vs_renewal_lease_lost", int(lost.Load()))
+	ccount("cleanup_vs_renewal_renewed_after_sweep", int(renewedAfter.Load()))
+	ccount("cleanup_vs_renewal_renewed_before_or_kept", int(renewedBefore.Load()))
 	if lost.Load() > 0 || (renewedAfter.Load() > 0 && renewedBefore.Load() > 0) {
-		run.Nontrivial("cleanup-vs-renewal-both-orders")
+		cnontriv("cleanup-vs-renewal-both-orders")
 	}
 }
